@@ -48,6 +48,8 @@ def sp_term(sp):
         if not all(isinstance(p, odl.space.base_tensors.TensorSpace) for p in sp):
             raise Unsupported('nested product space')
         return '(SP [%s]%%nat)' % '; '.join('%d' % p.size for p in sp)
+    if sp.is_complex:
+        return '(SC %d)' % sp.size
     return '(SV %d)' % sp.size
 
 
@@ -58,7 +60,27 @@ def vals(el):
         return [float(el)]
     if isinstance(getattr(el, 'space', None), odl.ProductSpace):
         return [v for part in el for v in vals(part)]
-    return [float(v) for v in np.asarray(el).ravel()]
+    a = np.asarray(el).ravel()
+    if np.iscomplexobj(a):               # cn(n): real parts ++ imaginary parts
+        return [float(v) for v in a.real] + [float(v) for v in a.imag]
+    return [float(v) for v in a]
+
+
+def fscal(z):
+    """a scalar of a real or complex field as a real number (complex scalars are not modelled)"""
+    z = complex(z)
+    if z.imag != 0:
+        raise Unsupported('complex scalar')
+    return z.real
+
+
+def _closure_point(Dop, space):
+    """the point captured by the locally defined derivative classes of ComplexModulus(Squared)"""
+    for c in (type(Dop)._call.__closure__ or ()):
+        v = c.cell_contents
+        if getattr(v, 'space', None) == space:
+            return v
+    raise Unsupported('cannot find the point of %s' % type(Dop).__name__)
 
 
 class Unsupported(Exception):
@@ -117,9 +139,9 @@ def ser(op):
     if t is O.OperatorPointwiseProduct:
         return '(OPProd %s %s)' % (ser(op.left), ser(op.right))
     if t is O.OperatorLeftScalarMult:
-        return '(OLScal %s %s)' % (ser(op.operator), C.q(float(op.scalar)))
+        return '(OLScal %s %s)' % (ser(op.operator), C.q(fscal(op.scalar)))
     if t is O.OperatorRightScalarMult:
-        return '(ORScal %s %s)' % (ser(op.operator), C.q(float(op.scalar)))
+        return '(ORScal %s %s)' % (ser(op.operator), C.q(fscal(op.scalar)))
     if t is O.OperatorLeftVectorMult:
         return '(OLVec %s %s)' % (ser(op.operator), C.qs(vals(op.vector)))
     if t is O.OperatorRightVectorMult:
@@ -142,7 +164,7 @@ def ser(op):
                          for i, j, o in zip(op.ops.row, op.ops.col, op.ops.data))
         return '(OPSO %s %s [%s])' % (cs, rs, ents)
     if t in (D.ScalingOperator, D.IdentityOperator):
-        return '(OLeaf (LScale %s %s))' % (sp_term(op.domain), C.q(float(op.scalar)))
+        return '(OLeaf (LScale %s %s))' % (sp_term(op.domain), C.q(fscal(op.scalar)))
     if t is D.MultiplyOperator:
         if op.domain != op.range:
             raise Unsupported('MultiplyOperator between different spaces')
@@ -178,6 +200,17 @@ def ser(op):
                 raise Unsupported('PointwiseNorm exponent %r' % p)
             return '(OLeaf (LPwNorm %d %d %s))' % (vf[0].size, int(p), w)
         return '(OLeaf (LPwInner %d %s %s))' % (vf[0].size, w, C.qs(vals(op.vecfield)))
+    if t is D.RealPart:
+        return '(OLeaf (LRe %s))' % sp_term(op.domain)
+    if t is D.ImagPart:
+        return '(OLeaf (LIm %s))' % sp_term(op.domain)
+    if t is D.ComplexModulus:
+        return '(OLeaf (LCMod %s))' % sp_term(op.domain)
+    if t is D.ComplexModulusSquared:
+        return '(OLeaf (LCMod2 %s))' % sp_term(op.domain)
+    if n in ('ComplexModulusDerivative', 'ComplexModulusSquaredDerivative') and t.__module__ == 'odl.operator.default_ops':
+        return '(OLeaf (LCModD %s %s %s))' % (C.b(n == 'ComplexModulusSquaredDerivative'), sp_term(op.domain),
+                                             C.qs(vals(_closure_point(op, op.domain))))
     if t is Cubic:
         return '(OLeaf (LAbs %d))' % op.domain.size
     if t is CubicDeriv:
@@ -206,6 +239,7 @@ class Gen(object):
         self.odl = odl
         self.F = odl.RealNumbers()
         self.V = {n: odl.rn(n) for n in (1, 2, 3)}
+        self.Cn = {n: odl.cn(n) for n in (1, 2, 3)}
         self._P = {}
 
     def vspace(self):
@@ -226,7 +260,12 @@ class Gen(object):
             return self.F
         if allow_prod and r > 0.8:
             return self.pspace()
+        if allow_prod and 0.7 < r <= 0.8:
+            return self.Cn[self.rng.choice([1, 2, 3])]
         return self.vspace()
+
+    def is_c(self, s):
+        return (not self.is_f(s)) and (not self.is_p(s)) and s.is_complex
 
     def is_f(self, s):
         return s is self.F
@@ -239,6 +278,8 @@ class Gen(object):
             return self.rng.choice(ENT)
         if self.is_p(s):
             return s.element([self.el(p, zero_ok) for p in s])
+        if self.is_c(s):
+            return s.element(np.array(rvec(self.rng, s.size, zero_ok)) + 1j * np.array(rvec(self.rng, s.size, True)))
         return s.element(rvec(self.rng, s.size, zero_ok))
 
     def leaf(self, dom, ran):
@@ -247,6 +288,30 @@ class Gen(object):
         PS = odl.operator.pspace_ops
         O = odl.operator.operator
         Cubic, _ = user_ops()
+        # complex spaces: only the real-linear structure (real scalars, Re, Im, modulus)
+        if self.is_c(dom) or self.is_c(ran):
+            if self.is_c(dom) and self.is_c(ran) and dom.size == ran.size:
+                k = rng.choice(['scale', 'ident', 'zero', 'const'])
+                if k == 'scale':
+                    return D.ScalingOperator(dom, rng.choice(SCAL))
+                if k == 'ident':
+                    return D.IdentityOperator(dom)
+                if k == 'zero':
+                    return D.ZeroOperator(dom)
+                return D.ConstantOperator(self.el(dom))
+            if self.is_c(dom) and ran == dom.real_space:
+                # (ComplexModulus needs exact roots: dedicated cases on Pythagorean points only)
+                k = rng.choice(['re', 'im', 'cmod2', 'cmod2'])
+                return {'re': D.RealPart, 'im': D.ImagPart, 'cmod2': D.ComplexModulusSquared}[k](dom)
+            if self.is_c(dom):
+                mid = dom.real_space
+                return O.OperatorComp(self.leaf(mid, ran), self.leaf(dom, mid))
+            # into a complex space: constants and zero
+            if self.is_f(dom) or self.is_p(dom):
+                mid = self.vspace()
+                return O.OperatorComp(self.leaf(mid, ran), self.leaf(dom, mid))
+            return D.ConstantOperator(self.el(ran), domain=dom, range=ran) if rng.random() < 0.7 \
+                else D.ZeroOperator(dom, ran)
         # product spaces: the smallest block operator that fits
         if self.is_p(dom) or self.is_p(ran):
             if self.is_p(dom) and self.is_p(ran):
@@ -298,7 +363,9 @@ class Gen(object):
                 return D.ZeroOperator(dom, ran)
             return D.ConstantOperator(self.el(ran), domain=dom, range=ran)
         k = rng.choice(['scale', 'ident', 'mul', 'mat', 'zero', 'const', 'const0', 'pow', 'pow', 'square', 'square',
-                        'recip', 'neg', 'cubic', 'cubic', 'abs', 'sign'])
+                        'recip', 'neg', 'cubic', 'cubic', 'abs', 'sign', 'realops'])
+        if k == 'realops':     # Re / Im / modulus on a REAL space (x.real is x, x.imag is 0)
+            return rng.choice([D.RealPart, D.ImagPart, D.ComplexModulusSquared, D.ComplexModulusSquared])(dom)
         if k == 'scale':
             return D.ScalingOperator(dom, rng.choice(SCAL))
         if k == 'ident':
@@ -334,16 +401,21 @@ class Gen(object):
         PS = self.odl.operator.pspace_ops
         if depth <= 0 or rng.random() < 0.12:
             return self.leaf(dom, ran)
-        kinds = ['sum', 'comp', 'comp', 'pprod', 'lscal', 'rscal']
+        kinds = ['sum', 'comp', 'comp', 'lscal', 'rscal']
+        if not self.is_c(ran):
+            kinds += ['pprod']
         if not self.is_f(ran):
-            kinds += ['vecsum', 'lvec']
-        if not self.is_f(ran) and not self.is_p(ran):
+            kinds += ['vecsum']
+        if not self.is_f(ran) and not self.is_c(ran):
+            kinds += ['lvec']
+        if not self.is_f(ran) and not self.is_p(ran) and not self.is_c(ran):
             kinds += ['flvec']
-        if not self.is_f(dom):
+        if not self.is_f(dom) and not self.is_c(dom):
             kinds += ['rvec']
-        if self.is_p(ran) and not self.is_f(dom) and not self.is_p(dom):
+        # (block operators between complex parts are not modelled: parts are rn(n))
+        if self.is_p(ran) and not self.is_f(dom) and not self.is_p(dom) and not self.is_c(dom):
             kinds += ['broadcast'] * 3
-        if self.is_p(dom) and not self.is_f(ran) and not self.is_p(ran):
+        if self.is_p(dom) and not self.is_f(ran) and not self.is_p(ran) and not self.is_c(ran):
             kinds += ['reduction'] * 3
         if self.is_p(dom) and self.is_p(ran) and len(dom) == len(ran):
             kinds += ['diagonal'] * 3
@@ -604,6 +676,29 @@ def norm_cases(rng, tier):
                     continue
                 term, info = r
                 cs.add(term, info, (term,))
+    # ComplexModulus on entries with integer modulus (3+4j, 6-8j, 5, 12j-5, ...), complex and real spaces
+    CM = [[3 + 4j, 6 - 8j], [5 + 12j], [-4 + 3j, 8 + 15j, 5 + 0j], [0 + 2j, 3 - 4j]]
+    for zs in CM:
+        Cs = odl.cn(len(zs))
+        Rs = odl.rn(len(zs))
+        for sp_, xx in ((Cs, Cs.element(zs)), (Rs, Rs.element([abs(z) for z in zs]))):
+            M = D.ComplexModulus(sp_)
+            for _ in range(reps):
+                s_ = rng.choice([2.0, -3.0, 0.5])
+                ops = [M, O.OperatorLeftScalarMult(M, s_), O.OperatorRightScalarMult(M, s_),
+                       O.OperatorComp(odl.ufunc_ops.square(Rs), M), O.OperatorSum(M, D.ComplexModulusSquared(sp_)),
+                       O.OperatorPointwiseProduct(M, D.RealPart(sp_)),
+                       O.OperatorComp(D.InnerProductOperator(Rs.element(rvec(rng, len(zs)))), M)]
+                for op in ops:
+                    g_ = Gen(rng)
+                    g_.Cn[len(zs)] = Cs
+                    d = Cs.element(np.array(rvec(rng, len(zs))) + 1j * np.array(rvec(rng, len(zs)))) \
+                        if sp_ is Cs else Rs.element(rvec(rng, len(zs)))
+                    r = run_case(op, xx, d)
+                    if r is None:
+                        continue
+                    term, info = r
+                    cs.add(term, info, (term,))
     # PointwiseNorm, exponent 2 (and 1): component fields whose weighted squares sum to squares at every index
     PW = [([[3.0, 6.0], [4.0, 8.0]], [1.0, 1.0]), ([[3.0, 6.0], [2.0, 4.0]], [1.0, 4.0]),
           ([[3.0, 5.0, -8.0], [4.0, 12.0, 15.0]], [1.0, 1.0]), ([[2.0, -3.0]], [1.0]), ([[1.0, -2.0]], [4.0]),
